@@ -272,6 +272,66 @@ def default_guess_sequences(run):
                             theorem="C01 (recovery; not a theorem)")
 
 
+def geometry_relative_cases(run):
+    """geometry gcf_k != 1 with a contact-point-relative fitting interval on
+    curves whose contact point is far from zero (no tip-offset correction):
+    the interval follows the contact point in measured units"""
+    from nanite import model
+    for t, (mk, k, cp) in enumerate([("hertz_para", 2.0, 4e-6),
+                                     ("hertz_cone", 0.5, 4e-6),
+                                     ("hertz_para", 1.6, 3.5e-6)]):
+        true = fits.default_params(mk, E=4000.0, contact_point=cp,
+                                   baseline=1e-11)
+        gcfg = {"geometry-relative": mk, "gcf_k": k, "contact_point": cp}
+        key = f"gcf-relative:{mk}:{k}"
+        run.case(gcfg, kind="geometry-relative")
+        try:
+            md = model.models_available[mk]
+            cols = fits.model_curve(mk, true, n_app=300, n_ret=120)
+            x = np.asarray(cols["tip position"], float)
+            vals = md.get_parameter_defaults()
+            for name in vals:
+                if name in true:
+                    vals[name].set(value=true[name])
+            vd = vals.valuesdict()
+            vd["contact_point"] = cp * k
+            cols["force"] = md.module.model_func(x * k, **vd)
+            cols["height (measured)"] = x - cols["force"] / .05
+            fmax = float(np.max(np.abs(cols["force"])))
+            span = float(np.ptp(x))
+            idnt = curves.make_indentation(cols)
+            p = md.get_parameter_defaults()
+            p["E"].set(value=true["E"] * 1.3)
+            p["contact_point"].set(value=cp * 1.02)
+            with warnings.catch_warnings():
+                warnings.simplefilter("ignore")
+                idnt.fit_model(model_key=mk, params_initial=p, segment=0,
+                               gcf_k=k, weight_cp=0, method="leastsq",
+                               range_type="relative cp",
+                               range_x=[-1.5e-6, 1e-6])
+            fp = idnt.fit_properties
+            why = None
+            if not fp.get("success"):
+                why = "fit reports success False"
+            else:
+                pf = fp["params_fitted"]
+                eE = abs(pf["E"].value / true["E"] - 1)
+                ec = abs(pf["contact_point"].value - cp) / span
+                rng_ = np.asarray(idnt["fit range"]).astype(bool)
+                lo, hi = float(x[rng_].min()), float(x[rng_].max())
+                if eE > 1e-5 or ec > 1e-6:
+                    why = f"recovered E {eE:.2e}, cp {ec:.2e}"
+                elif not (cp - 1.6e-6 <= lo <= cp - 1.4e-6
+                          and cp + 0.9e-6 <= hi <= cp + 1.1e-6):
+                    why = (f"fitted interval [{lo}, {hi}] is not "
+                           f"[cp - 1.5 um, cp + 1 um] around cp = {cp}")
+        except BaseException as e:
+            why = f"raised {type(e).__name__}: {e}"
+        if why:
+            run.failing(SITE, key, f"{gcfg}: {why}", payload={"kind": "rerun"},
+                        theorem="C01 (recovery; not a theorem)")
+
+
 def process_state_cases(run):
     """what another curve did earlier in the process does not matter: after a
     modulus-plateau search (and an E(delta) scan) on one curve, a FRESH curve
@@ -495,6 +555,7 @@ def check(run):
     refit_sequences(run)
     default_guess_sequences(run)
     geometry_cases(run)
+    geometry_relative_cases(run)
     process_state_cases(run)
     run.rule = ("ground truth from the implementation's own model functions: "
                 "5 models x parameters in bounds (E over 3.5 decades) x 50-"
